@@ -148,6 +148,7 @@ impl RegExpConfig {
     #[verifier::external_body] pub fn is_char_class_feature_enabled(&self) -> (r: bool) ensures r == class_feature(*self) { unimplemented!() }
 }
 impl<'a> GraphemeCluster<'a> {
+    // the graphemes of a cluster are what the closure of flat_map builds for every segment (slice segment_graphemes below: every one of them is plain)
     #[verifier::external_body] pub fn from(s: &str, config: &'a RegExpConfig) -> (r: Self)
         ensures r.graphemes@ == segments(s@, *config), r.config == config, all_plain(r.graphemes@), r.graphemes@.len() < 0x1_0000_0000 { unimplemented!() }
     // unit classes verifies the element-wise statement; here: the list is classes_of(old list), lengths and plain-ness are kept (what that statement implies)
@@ -178,6 +179,43 @@ pub struct RegExp<'a> { pub x: &'a u8 }
                 log.add('R35', w, '%s.iter().map(closure).collect_vec()' % m.group(1), 'vx_map_clusters(%s, closure): the closure applied to every element in order; the closure keeps its text and gets a checked contract' % m.group(1))
                 t = t[:m.start()] + 'vx_map_clusters(%s, %s)' % (m.group(1), clo) + t[pc + 1 + tail.end():]
         return t
+    # ---- GraphemeCluster::from, the closure of flat_map: the two branches that build the graphemes of one segment (R7 statement slice)
+    cl = b.src('cluster.rs')
+    gf, _, _ = X.fn(cl, 'from', within=r"^impl<'a> GraphemeCluster<'a> \{")
+    k0 = gf.find('if contains_backslash')
+    if k0 < 0: raise X.LostAnchor('cluster.rs::GraphemeCluster::from: the `if contains_backslash ..` statement')
+    st, _, _ = X.if_else_stmt(gf[k0:], 'if ')
+    b.emit('''impl Grapheme {
+    // verified in units repeats / rep against these clauses (grapheme_from.one_symbol_once, grapheme_from.flags)
+    #[verifier::external_body] pub fn from(s: &str, is_capturing_group_enabled: bool, is_output_colorized: bool, is_verbose_mode_enabled: bool) -> (r: Self)
+        ensures plain(r) && r.chars@[0]@ == s@, r.is_capturing_group_enabled == is_capturing_group_enabled && r.is_output_colorized == is_output_colorized && r.is_verbose_mode_enabled == is_verbose_mode_enabled { unimplemented!() }
+}
+pub open spec fn made_for(g: Grapheme, text: Seq<char>, c: RegExpConfig) -> bool {
+    plain(g) && g.chars@[0]@ == text && g.is_capturing_group_enabled == c.is_capturing_group_enabled && g.is_output_colorized == c.is_output_colorized && g.is_verbose_mode_enabled == c.is_verbose_mode_enabled
+}
+#[verifier::external_body] pub fn vx_char_to_string(c: char) -> (r: String) ensures r@ == seq![c] { unimplemented!() }
+// `it.chars().map(closure).collect_vec()`: the closure applied to every code point, in order
+#[verifier::external_body] pub fn vx_map_chars<F: Fn(char) -> Grapheme>(s: &str, f: F) -> (r: Vec<Grapheme>)
+    requires forall|c: char| f.requires((c,))
+    ensures r@.len() == s@.len(), forall|i: int| 0 <= i < s@.len() ==> f.ensures((s@[i],), #[trigger] r@[i]) { unimplemented!() }''')
+    def seg_pre(t, log, w):
+        m = re.search(r'\bit\.chars\(\)\s*\.map\(', t)
+        if not m: raise X.LostAnchor('cluster.rs::GraphemeCluster::from: it.chars().map(..)')
+        po = m.end() - 1; pc = L.match_close(t, po)
+        tail = re.match(r'\s*\.collect_vec\(\)', t[pc + 1:])
+        mm = re.match(r'\|(\w+)\|\s*', t[po + 1:pc].strip())
+        if not (tail and mm): raise X.LostAnchor('cluster.rs::GraphemeCluster::from: .map(|c| ..).collect_vec()')
+        c = mm.group(1); clo = t[po + 1:pc].strip()
+        clo = '|%s: char| -> (vx_g: Grapheme) ensures /*#cluster_from.one_grapheme_per_code_point_with_the_settings#*/ made_for(vx_g, seq![%s], *config) ' % (c, c) + clo[mm.end():]
+        log.add('R35', w, 'it.chars().map(closure).collect_vec()', 'vx_map_chars(it, closure): the closure applied to every code point in order; the closure keeps its text and gets a checked contract')
+        return t[:m.start()] + 'vx_map_chars(it, %s)' % clo + t[pc + 1 + tail.end():]
+    b.slice_fn('segment_graphemes', "pub fn segment_graphemes(it: &str, contains_backslash: bool, contains_combining_mark_or_unassigned_chars: bool, config: &RegExpConfig) -> (r: Vec<Grapheme>)", '    ' + st,
+               'cluster.rs::GraphemeCluster::from closure |it| of flat_map: the statement `if contains_backslash || .. { .. } else { .. }`', props=['C07'], pre=seg_pre,
+               extra_rules=[('R4', r'&c\.to_string\(\)', '&vx_char_to_string(c)', 'char -> one-char String')],
+               clauses=[Clause('cluster_from.unsplit_segment_is_one_plain_grapheme_with_the_settings', '!(contains_backslash || contains_combining_mark_or_unassigned_chars) ==> r@.len() == 1 && made_for(r@[0], it@, *config)', ['C16', 'C06', 'C05']),
+                        Clause('cluster_from.split_segment_is_one_plain_grapheme_per_code_point', '(contains_backslash || contains_combining_mark_or_unassigned_chars) ==> r@.len() == it@.len() && forall|i: int| 0 <= i < it@.len() ==> made_for(#[trigger] r@[i], seq![it@[i]], *config)', ['C16', 'C06', 'C01']),
+                        Clause('cluster_from.every_grapheme_is_plain', 'all_plain(r@)', ['C16', 'C05', 'C13'])],
+               loops={99: [('cluster_from.one_grapheme_per_code_point_with_the_settings', ['C16', 'C06'], 'true')]})
     b.emit("impl<'a> RegExp<'a> {")
     seg = 'segments(test_cases@[k]@, *config)'
     b.verified_fn('regexp.rs', 'grapheme_clusters', within=r"^impl<'a> RegExp<'a> \{", props=['C07'], fname='RegExp::grapheme_clusters', pre=pre,
